@@ -96,6 +96,7 @@ def main(tier, seed, only=None):
     cov = {'states': 0, 'transitions': 0, 'traces_validated_against_impl': 0, 'samples': [], 'harnesses': {}, 'tree_hash': run.tree_hash(),
            'solver': 'CBMC 6.11 (CaDiCaL) under Kani 0.68', 'explanation': 'bit-precise bounded model checking of the compiled date functions (real chrono, real f64 arithmetic) by Kani/CBMC; the SAT solver decides every assertion for all values in the stated ranges'}
     inconclusive, violations = [], []
+    validated = [0]
     nworkers = min(len(inst), 6)
     with cf.ThreadPoolExecutor(max_workers=nworkers) as ex:
         futs = {ex.submit(run_kani, i[0], timeout_s): i for i in inst}
@@ -106,6 +107,14 @@ def main(tier, seed, only=None):
             if p['checks']: cov['states'] += p['checks'][1]; cov['transitions'] += p['checks'][1]
             if p['status'] == 'success':
                 if not p['cover'] or p['cover'][0] != p['cover'][1]: inconclusive.append('%s: cover property not satisfied (vacuous harness?)' % name)
+                # cross-validation of the encoding: the natively compiled functions, run over the same finite domain, must agree
+                try:
+                    nat = native_scan(name, line, 'dev')
+                    hc['native_scan'] = nat or 'no deviation'
+                    if nat: inconclusive.append('%s: CBMC verified the harness but the native build deviates at %s' % (name, nat))
+                    else: validated[0] += 1
+                except Exception as e:
+                    inconclusive.append('%s: native cross-validation failed: %s' % (name, e))
                 cov['samples'].append({'harness': name, 'bounds': bounds, 'checks': p['checks'], 'verification_s': p['verification_s']})
             elif p['status'] == 'inconclusive':
                 inconclusive.append('%s: %s' % (name, (p['failed'] or [res['out'][-300:]])[0][:300]))
@@ -124,7 +133,8 @@ def main(tier, seed, only=None):
                     json.dump(rec, open(fn, 'w'), indent=1); violations.append((fn, rec))
                 else:
                     inconclusive.append('%s: CBMC reports a failing assertion (%s) but no input of the harness domain deviates natively' % (name, '; '.join(p['failed'])[:120]))
-    cov['traces_validated_against_impl'] = len(violations)
+    cov['traces_validated_against_impl'] = validated[0]
+    cov['traces_validated_note'] = 'harnesses whose finite input domain was also run through the natively compiled functions (replay binary) with the same verdict'
     if not cov['samples']: cov['samples'] = [{'note': 'no harness verified'}]
     cov['states'] = max(cov['states'], 1); cov['transitions'] = max(cov['transitions'], 1)
     for fn, rec in violations:
